@@ -72,16 +72,16 @@ func parseScriptExpression(descriptor string, topLevel bool) (Wallet, error) {
 	switch expressionFunc {
 	case "elsh":
 
-		return nil, nil
+		return nil, fmt.Errorf("unsupported expression: %s", expressionFunc)
 	case "elwsh":
 
-		return nil, nil
+		return nil, fmt.Errorf("unsupported expression: %s", expressionFunc)
 	case "elpk":
 
-		return nil, nil
+		return nil, fmt.Errorf("unsupported expression: %s", expressionFunc)
 	case "elpkh":
 
-		return nil, nil
+		return nil, fmt.Errorf("unsupported expression: %s", expressionFunc)
 	case "elwpkh":
 		keyInfo, err := parseKeyExpression(innerExpression)
 		if err != nil {
@@ -91,22 +91,22 @@ func parseScriptExpression(descriptor string, topLevel bool) (Wallet, error) {
 		return newWpkhWalletFromKeyInfo(keyInfo), nil
 	case "elcombo":
 
-		return nil, nil
+		return nil, fmt.Errorf("unsupported expression: %s", expressionFunc)
 	case "elmulti", "elsortedmulti":
 
-		return nil, nil
+		return nil, fmt.Errorf("unsupported expression: %s", expressionFunc)
 	case "elmulti_a":
 
-		return nil, nil
+		return nil, fmt.Errorf("unsupported expression: %s", expressionFunc)
 	case "elsortedmulti_a":
 
-		return nil, nil
+		return nil, fmt.Errorf("unsupported expression: %s", expressionFunc)
 	case "eltr":
 
-		return nil, nil
+		return nil, fmt.Errorf("unsupported expression: %s", expressionFunc)
 	case "eladdr":
 
-		return nil, nil
+		return nil, fmt.Errorf("unsupported expression: %s", expressionFunc)
 	case "elraw":
 
 	default:
